@@ -7,7 +7,8 @@ HERE = os.path.dirname(os.path.dirname(os.path.abspath(__file__)))
 wt, mid = sys.argv[1], sys.argv[2]
 checks = sys.argv[3:]
 def demo():
-    p = subprocess.run(["/venv/bin/python", "_mutant/demo.py"], cwd=wt, capture_output=True, text=True, timeout=600)
+    p = subprocess.run(["/venv/bin/python", "_mutant/demo.py"], cwd=wt, capture_output=True, text=True, timeout=600,
+                       env=dict(os.environ, PYTHONPATH=wt))
     return p.returncode
 out = {"id": mid, "worktree": wt}
 # (git stash is shared by all worktrees of a repository: never use it here)
